@@ -651,6 +651,143 @@ def run_chains(run, cases, impl_exe, model_exe, tier, label):
             run.samples.append({'program': inf['main'][:400], 'model_case': expr_tok(inf['expr'])[:300], 'model_answer': mr[:300]})
 
 
+# ---------------------------------------------------------------- reuse of one object value (observe, then extend)
+
+def reuse_stages(c, rr):
+    """objects built from the SAME atom values bound to locals: every atom, the growing prefixes
+    s1 = x0 + x1, s2 = s1 + x2, ..., and objects that reuse an operand in another sum
+    (x0 + x_last, x1 + x0, s1 + s1, std.objectRemoveKey(s_last, n) + x0).
+    returns (bindings [(local name, text)], stages [(local name, expr)])"""
+    atoms, names = c['atoms'], c['names']
+    k = len(atoms)
+    texts = [render_expr(rr, a) for a in atoms]
+    binds = [('x%d' % i, texts[i]) for i in range(k)]
+    stages = [('x%d' % i, atoms[i]) for i in range(k)]
+    prev_n, prev_e = 'x0', atoms[0]
+    for i in range(1, k):
+        e = ['P', prev_e, atoms[i]]
+        form = '%s + x%d' % (prev_n, i)
+        if atoms[i][0] == 'L' and rr.random() < 0.3:
+            form = '%s %s' % (prev_n, texts[i])          # obj { ... } on a bound object (a fresh literal, same layer)
+        binds.append(('s%d' % i, form))
+        stages.append(('s%d' % i, e))
+        prev_n, prev_e = 's%d' % i, e
+    extra = [('t', ['P', atoms[0], atoms[k - 1]], 'x0 + x%d' % (k - 1)),
+             ('u', ['P', atoms[1], atoms[0]], 'x1 + x0'),
+             ('w', ['P', ['P', atoms[0], atoms[1]], ['P', atoms[0], atoms[1]]], 's1 + s1')]
+    rn = rr.choice(names)
+    extra.append(('v', ['P', ['R', prev_e, rn], atoms[0]], 'std.objectRemoveKey(%s, %s) + x0' % (prev_n, jstr(rn))))
+    if k >= 3:
+        extra.append(('y', ['P', atoms[k - 1], ['P', atoms[0], atoms[1]]], 'x%d + s1' % (k - 1)))
+    for n, e, form in extra:
+        binds.append((n, form))
+        stages.append((n, e))
+    return binds, stages
+
+
+def run_reuse(run, cases, impl_exe, model_exe, tier):
+    """One object VALUE observed at several places of one program: forced (some fields, length,
+    manifestation) and then extended on either side, every stage observed, in a random order.
+    The model evaluates every observation independently; the program's answer must be the list of
+    the model's answers (K), and must not depend on the order of the observations (oracle)."""
+    mlines, meta = [], {}
+    for c in cases:
+        rr = random.Random('%s/reuse' % c['rseed'])
+        binds, stages = reuse_stages(c, rr)
+        meta[c['id']] = (binds, stages, rr)
+        nmt = ' '.join(nm_tok(n) for n in c['names'])
+        for sn, e in stages:
+            mlines.append('%s~%s\t%s\t%s' % (c['id'], sn, expr_tok(e), nmt))
+    model = vlib.run_sharded(model_exe, mlines, timeout=600)
+    B = Batch(impl_exe)
+    plan = {}
+    for c in cases:
+        cid, names = c['id'], c['names']
+        binds, stages, rr = meta[cid]
+        obs = []          # (text, expected python value)
+        ok = True
+        for sn, e in stages:
+            mr = model.get('%s~%s' % (cid, sn), 'NOOUTPUT')
+            if mr.startswith('MODELEXC') or mr == 'NOOUTPUT' or 'MODELPANIC' in mr or 'MODELFUEL' in mr:
+                run.violation('model-machinery', 'model driver failed on a reuse stage: %s' % mr[:200],
+                              {'kind': 'chain', 'names': names, 'atoms': c['atoms'], 'tree': c['tree'], 'rseed': c['rseed']}, concrete=False)
+                ok = False
+                break
+            M = model_answer(mr)
+            if M.get('B') != 'ok':
+                continue          # this local is never forced (building it fails; covered by the chain check)
+            mvals = M['val'].split(',')
+            fields = [un_nm(t) for t in M['fields'].split(',')] if M['fields'] else []
+            for i, n in enumerate(names):
+                mv = model_val(mvals[i])
+                if mv[0] == 'OK':
+                    obs.append(('%s[%s]' % (sn, jstr(n)), mv[1]))
+            obs.append(('std.length(%s)' % sn, int(M['len'], 16)))
+            obs.append(('std.objectFields(%s)' % sn, fields))
+            if not M['man'].startswith('E'):
+                pairs = [(un_nm(x.split(':')[0]), model_val(x.split(':')[1])[1]) for x in M['man'].split(',')] if M['man'] else []
+                obs.append((sn, [('__obj__', None)] + pairs))
+        if not ok or not obs:
+            continue
+        rr.shuffle(obs)
+        obs = obs[:14 if tier == 'quick' else 24]
+        perm = list(range(len(obs)))
+        rr.shuffle(perm)
+        head = prelude(names) + 'local ' + ', '.join('%s = %s' % (n, t) for n, t in binds) + '; '
+        B.prelude = ''
+        B.add('%s/reuse/a' % cid, head + '[' + ', '.join(t for t, _ in obs) + ']')
+        B.add('%s/reuse/b' % cid, head + '[' + ', '.join(obs[j][0] for j in perm) + ']')
+        plan[cid] = (obs, perm)
+    B.run()
+    for c in cases:
+        cid = c['id']
+        if cid not in plan:
+            continue
+        obs, perm = plan[cid]
+        run.evaluations += 2
+        run.count('reuse_programs', 2)
+        run.count('reuse_observations', len(obs))
+        a, b = B.get('%s/reuse/a' % cid), B.get('%s/reuse/b' % cid)
+        replay = {'kind': 'chain', 'names': c['names'], 'atoms': c['atoms'], 'tree': c['tree'], 'rseed': c['rseed'],
+                  'program': B.text['%s/reuse/a' % cid], 'other_program': B.text['%s/reuse/b' % cid]}
+        want = [v for _, v in obs]
+        for tag, ans, order in (('a', a, list(range(len(obs)))), ('b', b, perm)):
+            exp = [want[j] for j in order]
+            if ans != ('OK', exp):
+                bad = None
+                if ans[0] == 'OK' and isinstance(ans[1], list) and len(ans[1]) == len(exp):
+                    for pos, j in enumerate(order):
+                        if ans[1][pos] != exp[pos]:
+                            bad = 'observation %s: implementation %r, model (evaluated on its own) %r' % (obs[j][0], ans[1][pos], exp[pos])
+                            break
+                run.violation('reuse-stale-value', 'one object value observed and then extended: %s | program: %s'
+                              % (bad or ('implementation %s' % (ans[:2],)), B.text['%s/reuse/%s' % (cid, tag)][:600]), replay)
+                break
+        else:
+            continue
+        # (reported above)
+    # order independence on the implementation alone
+    for c in cases:
+        cid = c['id']
+        if cid not in plan:
+            continue
+        obs, perm = plan[cid]
+        a, b = B.get('%s/reuse/a' % cid), B.get('%s/reuse/b' % cid)
+        if a[0] == 'OK' and b[0] == 'OK' and isinstance(a[1], list) and isinstance(b[1], list) and len(a[1]) == len(b[1]) == len(obs):
+            if [a[1][j] for j in perm] != b[1]:
+                j = next(pos for pos, jj in enumerate(perm) if a[1][jj] != b[1][pos])
+                run.violation('observation-order-dependence',
+                              'the same observation %s yields %r or %r depending on what was observed before | programs: %s  ///  %s'
+                              % (obs[perm[j]][0], a[1][perm[j]], b[1][j], B.text['%s/reuse/a' % cid][:500], B.text['%s/reuse/b' % cid][:500]),
+                              {'kind': 'chain', 'names': c['names'], 'atoms': c['atoms'], 'tree': c['tree'], 'rseed': c['rseed'],
+                               'program': B.text['%s/reuse/a' % cid], 'other_program': B.text['%s/reuse/b' % cid]})
+        elif a[0] != b[0]:
+            run.violation('observation-order-dependence', 'the program succeeds or fails depending on the order of its observations: %s vs %s' % (a[:2], b[:2]),
+                          {'kind': 'chain', 'names': c['names'], 'atoms': c['atoms'], 'tree': c['tree'], 'rseed': c['rseed'],
+                           'program': B.text['%s/reuse/a' % cid], 'other_program': B.text['%s/reuse/b' % cid]})
+
+
+
 def literal_name_counts(e, acc):
     """(set of names, number of fields) per literal: C07_build_wf needs distinct names in every literal"""
     if e[0] == 'L':
@@ -754,7 +891,9 @@ def check(run):
                 'locals, computed / dropped field names, e {..} sugar, std.objectRemoveKey at any point, results of std.mapWithKey / std.prune / '
                 'std.mergePatch as sources; a random bracketing is compared observer by observer with the extracted model, up to 4 (quick) / all '
                 '(thorough) other bracketings, both {} extensions, one removal and a late-binding/super probe are judged by the oracle on the '
-                'implementation alone.  non-trivial = chain in which some name occurs in >= 2 layers; distinct = distinct abstract chain.')
+                'implementation alone; one more program per chain binds the atoms and their growing sums to locals and observes all of them (forced, '
+                'then extended on either side, then observed again) in a shuffled order, compared with independent model evaluations and with the '
+                'same program permuted.  non-trivial = chain in which some name occurs in >= 2 layers; distinct = distinct abstract chain.')
     run.assume = ['a hash map with unique keys is an association list (Proofs: wf_layer); iteration order is immaterial under unique keys (proved: the merged state of a name depends only on that name\'s entries)',
                   'str::cmp on UTF-8 equals lexicographic order on code points',
                   'usize arithmetic on layer indices does not overflow (depths are bounded by the number of layers)',
@@ -775,6 +914,7 @@ def check(run):
     # batches keep memory bounded in thorough
     for s in range(0, len(cases), 3000):
         run_chains(run, cases[s:s + 3000], impl_exe, model_exe, run.tier, 'chains')
+        run_reuse(run, cases[s:s + 3000], impl_exe, model_exe, run.tier)
 
 
 def replay(run, path):
@@ -787,6 +927,7 @@ def replay(run, path):
             return t if isinstance(t, int) else (tup(t[0]), tup(t[1]))
         c = {'id': 'r0', 'names': r['names'], 'atoms': r['atoms'], 'tree': tup(tree), 'rseed': r['rseed']}
         run_chains(run, [c], vlib.build_harness(), vlib.build_model('objects'), 'thorough', 'replay')
+        run_reuse(run, [c], vlib.build_harness(), vlib.build_model('objects'), 'thorough')
     else:
         print('replay file names a broken obligation, not an input:', json.dumps(j.get('no_longer_checks', j), indent=1)[:2000])
         pres = vlib.prove(ID, THEOREMS, ALLOWED_AXIOMS)
